@@ -538,3 +538,89 @@ def write(path, progsets):
     with open(path, "w") as fh:
         for p in progsets:
             fh.write(json.dumps(p) + "\n")
+
+
+# ------------------------------------------------------------------------------------------------
+# C08 load-time checking: every position x every offender
+
+CHECK_TEMPLATES = [
+    "x = @", "x = 1 + @", "x = @ * 2", "x = -@", "x = !@", "x = (@)", "x = 1 == @", "x = @ < 1", "x = true && @", "x = @ || true",
+    "x = 1 in @", "x = @ in z", "x += @", "z[0] += @", "z[0] = @", "@",
+    "if @ { }", "if 1 { } elif @ { }", "if 1 { y = @ }", "if 0 { } else { y = @ }", "if 0 { } elif 1 { y = @ } else { }",
+    "for i = @; i < 1; i = i + 1 { }", "for i = 0; @; i = i + 1 { break }", "for i = 0; i < 1; i = @ { }", "for ;; { y = @\nbreak }",
+    "for v in @ { }", "for v in [1] { y = @ }", "for v in [1] { if v { y = @ } }",
+    "x = [@]", "x = [1, @]", "x = [[@]]", 'x = {"k": @}', 'x = {"a": 1, "b": @}', "x = {@: 1}",
+    "z[@] = 1", "x = z[@]", "x = z[0][@]", "z[0][@] = 2",
+    "x = z[@:]", "x = z[:@]", "x = z[::@]", "x = z[1:@]", "x = z[1::@]", "x = z[:1:@]", "x = z[1:2:@]", "x = z[@:1:1]", "x = z[@::1]",
+    'x = "abc"[@:]', "x = [1, 2][::@]", "x = z[1:][@:]", "x = len(z)[::@]",
+    "len(@)", "add_key(k, @)", "probe(1, @)", "probe(@, 1)", "len(len(@))", "pv(@)", "probe(a = @)", "add_key(k, [1, {\"q\": @}])",
+]
+CHECK_OFFENDERS_V1 = [
+    "nosuch()", "nosuch(1, 2)", "len()", "len(1, 2)", "add_key()", "add_key(1)", "add_key(a, 1, 2)", "get_key()", "get_key(1)", "drop_key(1)",
+    "drop_key(a, b)", "rename(a)", "rename(a, 1)", 'rename(a, "b")', "cast(a)", "cast(a, 1)", 'cast(a, "zz")', "cast(1, \"int\")",
+    "set_tag(a, 1)", "set_tag()", "set_measurement(a, 1)", "set_measurement()", "strfmt(a)", "strfmt(a, 1)", "trim(a, 1)", "trim()",
+    'replace(a, "x")', 'replace(a, 1, "y")', "use(a)", "use()", 'use("a", "b")', "grok(a)", 'grok(a, "%{NOSUCHPATTERN:x}")', "grok(a, b)",
+    'grok(a, "%{WORD:w}", 1)', 'add_pattern(a, "x")', 'add_pattern("p", "%{NOSUCHPATTERN}")', 'xml(a, "x", 1)', 'xml(a, 1, b)',
+    'datetime(a, "ms")', 'datetime(a, 1, "RFC3339")', "default_time(a, 1)", "default_time()", "pv()", "pv(1, 2)", "uppercase()", "uppercase(1)",
+    "url_decode(1)", "sql_cover()", "load_json()", "printf(1)", "printf()", "{1: 2}", "{nil: 1}", "{[1]: 1}",
+]
+CHECK_VALID_V1 = ["len(z)", "get_key(k)", "pv(1)", 'grok(a, "%{WORD:w}")', "exit()", 'cast(a, "int")', "add_key(a)", "a.b", "nil", "z[0]",
+                  'load_json("1")', "uppercase(a)", 'replace(a, "x", "y")', 'strfmt(a, "%v", 1)', 'set_tag(a, "v")', "rename(a, b)",
+                  "printf(a, 1)", 'trim(a, " ")', "set_measurement(a, true)", "default_time(a)", '{"k": 1}']
+CHECK_OFFENDERS_V2 = ["nosuch()", "two(1)", "one()", "one(1, 2)", "one(y = 1)", "void(xs = 1)", "probe(a = 1)", "len(1)", "{1: 2}"]
+CHECK_VALID_V2 = ["one(1)", "one(x = 1)", "two()", "void()", "void(1, 2)", "probe()", "nil", "z[0]"]
+LOOP_TEMPLATES = [
+    ("@", False), ("if 1 { @ }", False), ("if 0 { } else { @ }", False), ("for ;; { break }\n@", False), ("for v in [1] { }\n@", False),
+    ("for ;; { for v in [1] { } \n break }\n@", False), ("if 1 { for ;; { break } \n @ }", False),
+    ("for ;; { @ }", True), ("for v in [1] { @ }", True), ("for ;; { if 1 { @ } \n break }", True), ("if 1 { for v in [1] { if v { @ } } }", True),
+    ("for ;; { for v in [1] { } \n @ \n break }", True), ("for i = 0; i < 1; i = i + 1 { if 1 { } else { @ } }", True),
+    ("for v in [1] { for w in [1] { @ } }", True),
+]
+
+
+def gen_check(quick, seed):
+    rng = random.Random(seed)
+    out = []
+    n = 0
+
+    def add(text, v2, tag, without=None):
+        nonlocal n
+        n += 1
+        p = ps("chk:%d" % n, text, v2=v2, tag=tag)
+        p["without"] = without or []
+        out.append(p)
+
+    for t in CHECK_TEMPLATES:
+        is_stmt = t == "@"
+        for o in CHECK_OFFENDERS_V1:
+            if quick and rng.random() < 0.6:
+                continue
+            if t in ("x = {@: 1}",) and o[0] == "{":
+                pass
+            add(t.replace("@", o), False, "offender in position: " + t)
+        for o in CHECK_VALID_V1:
+            if quick and rng.random() < 0.5:
+                continue
+            add(t.replace("@", o), False, "valid construct in position: " + t)
+        if "add_key" in t or "len(" in t or "pv(" in t or "a = @" in t:
+            continue
+        pre = "z = [1, 2]\ny = 0\n"
+        for o in CHECK_OFFENDERS_V2:
+            add(pre + t.replace("@", o), True, "v2 offender in position: " + t)
+        for o in CHECK_VALID_V2:
+            if quick and rng.random() < 0.5:
+                continue
+            add(pre + t.replace("@", o), True, "v2 valid construct in position: " + t)
+    for t, ok in LOOP_TEMPLATES:
+        for kw in ("break", "continue"):
+            for v2 in (False, True):
+                add(t.replace("@", kw), v2, "break/continue placement (%s)" % ("inside a loop" if ok else "outside every loop"))
+    # arbitrary registered function tables: a builtin that is not registered is an unknown function
+    for f, use in [("len", "x = len(z)"), ("add_key", "add_key(k, 1)"), ("exit", "if 1 { exit() }"), ("probe", "for ;; { probe(1)\nbreak }"),
+                   ("grok", 'x = [grok(a, "%{WORD:w}")]')]:
+        add(use, False, "function removed from the registered table", without=[f])
+        add(use, False, "same program with the full table")
+    for f, use in [("one", "x = [1, 2][one(0):]"), ("void", "void()")]:
+        add(use, True, "v2 function removed from the table", without=[f])
+        add(use, True, "v2 same program with the full table")
+    return out
